@@ -114,11 +114,18 @@ func lowerKey(s string) string { return "l:" + strings.ToLower(strings.ReplaceAl
 
 func genScalarField(r *vh.Rand, name string) uField {
 	t := vh.Pick(r, scalars)
-	return uField{Name: name, J5Type: t.j5, PType: t.ptype, J5Kind: t.kind, Required: r.Chance(25), Bang: r.Bool()}
+	u := uField{Name: name, J5Type: t.j5, PType: t.ptype, J5Kind: t.kind, Required: r.Chance(25), Bang: r.Bool()}
+	if !u.Required && r.Chance(15) {
+		u.Optional = true
+	}
+	return u
 }
 
 func genKeyTyped(r *vh.Rand, name string) uField {
 	u := uField{Name: name, Key: true, KeyFmt: vh.Pick(r, []string{"", "id62", "uuid", "id62"}), PType: 9, J5Kind: "key", Required: r.Chance(30), Bang: r.Bool()}
+	if !u.Required && r.Chance(10) {
+		u.Optional = true
+	}
 	return u
 }
 
@@ -167,12 +174,18 @@ func genEntity(r *vh.Rand) *entityDecl {
 		var k eKey
 		if r.Chance(80) {
 			k.uField = genKeyTyped(r, name)
-			switch r.Intn(4) {
+			switch r.Intn(5) {
 			case 0, 1:
 				k.Primary = true
+				k.Optional = false
 			case 2:
 				if r.Bool() {
 					k.Tenant = ptr(vh.Pick(r, []string{"account", "org", "t_1"}))
+				}
+			case 3:
+				k.Foreign = &[2]string{vh.Pick(r, []string{"other.v1", "bar.baz.v2", d.Pkg}), vh.Pick(r, []string{"thing", "account", "foo_bar", "Widget"})}
+				if r.Chance(30) {
+					k.Tenant = ptr("org")
 				}
 			}
 			if k.Primary && r.Chance(15) {
@@ -194,6 +207,17 @@ func genEntity(r *vh.Rand) *entityDecl {
 			}
 			return vh.Pick(r, []string{"Active", "active", "inProgress", "Done2", "a_b", "Draft", "onHold"})
 		}, rawKey, lowerKey))
+	}
+	// edge cases of visitEnumNode/addValue: a first status ending in UNSPECIFIED takes slot 0,
+	// a status that already carries the prefix keeps its name
+	if r.Chance(8) {
+		d.Status = append([]string{vh.Pick(r, []string{"UNSPECIFIED", "X_UNSPECIFIED", strcase.ToScreamingSnake(d.Name) + "_STATUS_UNSPECIFIED"})}, d.Status...)
+	}
+	if r.Chance(8) {
+		pre := strcase.ToScreamingSnake(d.Name) + "_STATUS_" + vh.Pick(r, []string{"LIVE", "Z9"})
+		if !ss[lowerKey(pre)] {
+			d.Status = append(d.Status, pre)
+		}
 	}
 	// events
 	es := nameSet{}
@@ -230,7 +254,11 @@ func genEntity(r *vh.Rand) *entityDecl {
 				return vh.Pick(r, []string{"DoIt", "Create", "Update", "Archive", "Rename", "Touch", "Bump", "SetName", "Op"}) + vh.Pick(r, []string{"", "", "Foo", "2", "Thing"})
 			}, rawKey)
 			m.Request = genFields(r, 0, 3)
-			m.Response = genFields(r, 0, 2)
+			if r.Chance(15) {
+				m.NoResponse = true
+			} else {
+				m.Response = genFields(r, 0, 2)
+			}
 			var parts []string
 			for _, f := range m.Request {
 				if r.Chance(50) {
@@ -275,6 +303,22 @@ func genEntity(r *vh.Rand) *entityDecl {
 // malformed stream: declarations entityNode.run rejects
 func genMalformed(r *vh.Rand) (*entityDecl, string) {
 	d := genEntity(r)
+	if r.Chance(30) {
+		// buildProperty: a field cannot be both required (or a primary key) and optional
+		switch {
+		case len(d.Data) > 0 && r.Bool():
+			d.Data[0].Required, d.Data[0].Optional = true, true
+		case len(d.Events) > 0 && len(d.Events[0].Fields) > 0 && r.Bool():
+			d.Events[0].Fields[0].Required, d.Events[0].Fields[0].Optional = true, true
+		default:
+			k := &d.Keys[r.Intn(len(d.Keys))]
+			if !k.Key {
+				k.uField = genKeyTyped(r, k.Name)
+			}
+			k.Primary, k.Foreign, k.Optional, k.Required = true, nil, true, false
+		}
+		return d, "optional-required"
+	}
 	if r.Bool() {
 		if d.Query == nil {
 			d.Query = &eQuery{}
@@ -322,7 +366,7 @@ const c17Shard = 40
 func runC17(cfg *vh.Config) error {
 	log.SetOutput(io.Discard) // the compiler logs every walker error
 	res := vh.NewResult("C17", cfg.Seed)
-	res.Rule = "entity declarations: name casings (fixed list incl. trailing capitals/acronyms/digits/underscores + generated identifiers), 1-4 keys (key-typed id62/uuid/plain with primary/tenant, or scalar) x shard flag x required, 0-4 data fields over 9 scalar types + keys, 1-4 statuses, 0-3 events with 0-3 fields, 0-2 command services (default/named, base path, 0-2 methods with path parameters), 0-2 summaries (default/named), optional query settings; malformed: unknown default status, duplicate summary; plus the strcase stream; non-trivial = distinct declaration text"
+	res.Rule = "entity declarations: name casings (fixed list incl. trailing capitals/acronyms/digits/underscores + generated identifiers), 1-4 keys (key-typed id62/uuid/plain with primary/tenant, or scalar) x shard flag x required, 0-4 data fields over 9 scalar types + keys, 1-4 statuses (+ the UNSPECIFIED-first and prefixed-name edge cases), foreign keys, optional fields, methods without response, 0-3 events with 0-3 fields, 0-2 command services (default/named, base path, 0-2 methods with path parameters), 0-2 summaries (default/named), optional query settings; malformed: unknown default status, duplicate summary, optional+required field; plus the strcase stream; non-trivial = distinct declaration text"
 	cf := &vh.CasesFile{
 		Header: "From Coq Require Import String List NArith.\nFrom J5V.lib Require Import Outcome.\nFrom J5V.model Require Import Entity EntityCorr.",
 		Type:   "c17case",
@@ -359,7 +403,7 @@ func runC17(cfg *vh.Config) error {
 		res.Count("entity_" + kinds[i])
 		out := compileEntity(d)
 		in := map[string]any{"j5s": text}
-		malformed := kinds[i] == "unknown-default-status" || kinds[i] == "duplicate-summary"
+		malformed := kinds[i] == "unknown-default-status" || kinds[i] == "duplicate-summary" || kinds[i] == "optional-required"
 		if out.panicked != nil {
 			res.Fail(vh.Failure{Case: caseNo, Stream: "entity", Sig: "C17 compiler panic on entity declaration", Clause: "entity expansion is total", Input: in, Got: fmt.Sprint(out.panicked)})
 			caseNo++
@@ -466,6 +510,8 @@ func endsCap(s string) bool {
 func errClass(err error) string {
 	s := err.Error()
 	switch {
+	case strings.Contains(s, "cannot be both required and optional"):
+		return "required and optional"
 	case strings.Contains(s, "not found in entity"):
 		return "status not found in entity"
 	case strings.Contains(s, "duplicate summary"):
